@@ -546,5 +546,5 @@ MANIFEST = {
     "text": "exploration: equality with exact set inclusion on thousands (quick) / hundreds of thousands (thorough) of plain address pairs across spellings and platforms, implication for grouped addresses, exact membership for address-group members, and ask / re-address (line setter or in-place member edits, incl. an edit the library refuses) / ask histories",
     "note": "trusted: lib/refsem.py inclusion algebra; k<=4 non-contiguous bits; group members contiguous (native member syntax); AddrGroup-in-AddrGroup not asserted",
 }
-MANIFEST["engine"] += " + atheris (coverage-guided twins of the Hypothesis sub-checks, fuzz/fuzz_hyp.py: 2 jobs x 8 s quick, 8 jobs x 200 s thorough)"
+MANIFEST["engine"] = MANIFEST.get("engine", "hypothesis") + " + atheris (coverage-guided twins of the Hypothesis sub-checks, fuzz/fuzz_hyp.py: 2 jobs x 8 s quick, 8 jobs x 200 s thorough)"
 MANIFEST["technique"] += "; plus coverage-guided fuzzing of the same strategies (atheris/libFuzzer mutates the byte stream Hypothesis decodes into cases, the same oracle runs inside the target, findings are re-judged outside it)"
